@@ -280,7 +280,7 @@ def pair_case(eg, i, cplx):
         if a is None or b is None or (o2 in ("sum", "dot") and T.shape(b) != (n_, n_)):
             return None
         A_, B_ = leaf(a), leaf(b)            # the same dict object = the same Python operator object (see ev)
-        pat = r.choice([[A_, B_, A_], [A_, A_, B_], [B_, A_, A_], [A_, B_, B_, A_]])
+        pat = r.choice([[A_, B_, A_], [A_, B_, A_], [A_, A_, B_], [B_, A_, A_], [A_, B_, B_, A_], [B_, A_, B_, A_]])
         if o2 == "block":
             return dict(op="block", l=pat), None
         if o2 == "sum":
@@ -586,7 +586,7 @@ def run(ctx):
     ops_u = ["mul", "neg", "div", "add", "sub", "dot", "kron", "kronsum", "kron3r", "kron3l", "block", "add_bad", "dot_bad", "add_zarr", "add_zarr_bad"]
     eg.combos = [(o_, k_) for o_ in ops_u for k_ in ALLK] + [("flat_" + o_, None) for o_ in ("add", "dot", "kron", "kronsum") for _ in range(4)] + \
                 [(f"sl_{o_}_{ka}_{kb}", None) for o_ in ("kron", "kronsum", "dot", "add") for ka in ("Diag", "Ident", "Scal", "Perm") for kb in ("Diag", "Ident", "Scal", "Perm")] + \
-                [("share_" + o_, None) for o_ in ("block", "sum", "dot", "kron") for _ in range(3)] + [("znum", k_) for k_ in ("Dense", "Sum", "Prod", "Kron", "Diag", "Ident") for _ in range(3)] + [("sl_dot_Perm_Perm", None)] * 3 + [("longsum", None)] * 6
+                [("share_" + o_, None) for o_ in ("block", "block", "sum", "dot", "kron") for _ in range(3)] + [("znum", k_) for k_ in ("Dense", "Sum", "Prod", "Kron", "Diag", "Ident") for _ in range(3)] + [("sl_dot_Perm_Perm", None)] * 3 + [("longsum", None)] * 6
     rnd.shuffle(eg.combos)
     pc_i = 0   # position in the (combinator x root kind) sweep: 198 combinations, all visited in every run
     while len(cases) < n and tries < 30 * n:
